@@ -40,18 +40,24 @@ def make_mutator(m):
 
 def run(prop, units, scratch, seed, out):
     info = {"seeds": [], "mutants": [], "replays": []}
-    # (i) seeds
+    # (i) seeds - robustness information only: a proof that needs more than half the resource limit under another
+    # solver seed is reported as fragile in the evidence (and on a NOTE line); it is no statement about the code
     os.environ["VERIF_RLIMIT"] = "30"
     try:
         for k in range(3):
             sd = (seed * 7919 + 104729 * (k + 1)) % 100000
             for un in units:
-                r = runner.verify_unit(un, scratch, reach=False, seed=sd, tag="_s%d" % k)
+                try:
+                    r = runner.verify_unit(un, scratch, reach=False, seed=sd, tag="_s%d" % k, tolerate_rlimit=True)
+                except Undecided as e:
+                    info["seeds"].append({"unit": un, "seed": sd, "error": str(e)[:300]})
+                    out["lines"].append("NOTE: property=%s unit %s not re-proved under solver seed %d at rlimit 30: %s" % (prop, un, sd, str(e)[:160]))
+                    continue
                 mine = {n for n, o in r["unit"].obligations.items() if prop in o["props"]}
                 bad = [n for n in r["failed"] if n in mine and n not in out["known"]]
-                info["seeds"].append({"unit": un, "seed": sd, "failed": bad})
-                if bad:
-                    raise Undecided("proof of %s is not robust: fails under solver seed %d (rlimit 30)" % (", ".join(bad), sd))
+                info["seeds"].append({"unit": un, "seed": sd, "failed": bad, "rlimit_functions": r.get("rlimit_fns")})
+                if bad or r.get("rlimit_fns"):
+                    out["lines"].append("NOTE: property=%s proof in unit %s is fragile under solver seed %d at rlimit 30 (failed: %s; resource limit in: %s)" % (prop, un, sd, ", ".join(bad) or "-", ", ".join(r.get("rlimit_fns") or []) or "-"))
     finally:
         os.environ.pop("VERIF_RLIMIT", None)
     # (ii) mutants
@@ -67,7 +73,7 @@ def run(prop, units, scratch, seed, out):
         os.makedirs(sub, exist_ok=True)
         mut = make_mutator(m)
         try:
-            r = runner.verify_unit(un, sub, reach=False, mutate=mut)
+            r = runner.verify_unit(un, sub, reach=False, mutate=mut, tolerate_rlimit=True)
         except Undecided as e:
             return (m, None, str(e))
         if not mut.state["applied"]:
@@ -80,9 +86,14 @@ def run(prop, units, scratch, seed, out):
     survivors = []
     for m, failed, err in results:
         killed = bool(failed) and any(e in failed for e in m["expect"])
-        info["mutants"].append({"id": m["id"], "expect": m["expect"], "failed": sorted(failed) if failed else None, "killed": killed, "error": err})
-        if not killed:
-            survivors.append("%s (expected %s, got %s%s)" % (m["id"], m["expect"], sorted(failed) if failed else None, ", " + err if err else ""))
+        verdict = "killed" if killed else ("inconclusive" if err else "survived")
+        info["mutants"].append({"id": m["id"], "expect": m["expect"], "failed": sorted(failed) if failed else None, "killed": killed, "verdict": verdict, "error": err})
+        if verdict == "survived":
+            survivors.append("%s (expected %s, got %s)" % (m["id"], m["expect"], sorted(failed) if failed else None))
+        elif verdict == "inconclusive":
+            # the mutated text could not be judged (tool problem, or the pattern no longer occurs in the source): says
+            # nothing about the code and nothing about the contract
+            out["lines"].append("NOTE: property=%s self-test mutant %s inconclusive: %s" % (prop, m["id"], (err or "")[:160]))
     # (iii) replays on the real code
     import replay
     idx = replay.index()
